@@ -104,7 +104,7 @@ namespace rpc
         string(std::string_view s) { assign(s); }
         string() : base(nullptr, 0) { }
         const char* c_str() const { return cbegin(); }
-        std::string_view sv() const { return {c_str(), size() - 1}; }
+        std::string_view sv() const { return {c_str(), size() ? size() - 1 : 0}; }
         std::string to_std() { return std::string(sv()); };
         bool operator==(const string& rhs) const { return sv() == rhs.sv(); }
         bool operator!=(const string& rhs) const { return !(*this == rhs); }
@@ -131,7 +131,11 @@ namespace rpc
         slice(off_t off, size_t len) : offset(off), length(len) {}
 
         string anchor(const buffer& base_buffer) const {
-            assert(offset + length <= base_buffer.size());
+            // offset / length may come straight from the wire (e.g. a sorted_map index):
+            // never form a string that reaches outside of base_buffer
+            if (offset < 0 || (size_t)offset > base_buffer.size() ||
+                length > base_buffer.size() - (size_t)offset)
+                return {};
             return {(char*) base_buffer.addr() + offset, length};
         }
 
